@@ -190,7 +190,7 @@ def run_c12(chk, binp):
     core.log("[C12] generated %d mutations in %.1fs" % (n, g.wall))
     obs = chk.path("obs_mut.ndjson")
     aborts = observe_hostile(chk, binp, lambda s: ["obs-hostile", cases, obs, s], obs)
-    nr = 5000 if quick else 300000
+    nr = 4000 if quick else 300000
     robs = chk.path("obs_rand.ndjson")
     aborts += observe_hostile(chk, binp, lambda s: ["rand-hostile", nr, chk.seed, robs, s], robs)
     allobs = chk.path("obs_all.ndjson")
@@ -198,7 +198,7 @@ def run_c12(chk, binp):
         f.write(open(obs).read())
         f.write(open(robs).read())
     t0 = time.time()
-    out, lines = validate(chk, allobs, shards=14, tags=("MISMATCH", "DIAG"))
+    out, lines = validate(chk, allobs, shards=10, tags=("MISMATCH", "DIAG"))
     core.log("[C12] validated %d observations in %.1fs" % (len(lines), time.time() - t0))
     classify_hostile(chk, out["MISMATCH"], lines, out["DIAG"])
     chk.add("enumerated_cases", n)
